@@ -86,6 +86,14 @@ pub fn alphabet() -> Vec<Call> {
         c("i64", "((2+", "0"),
         c("i64", "1)", "0"),
         c("i64", "(1+2)*3", "0"),
+        // the same function argument as in another evaluator's calls (a memo shared between evaluators)
+        // (bare calls: inside a sum with 6! a difference in the last place of w would be absorbed)
+        c("decimal", "w(2)", &d("0")),
+        c("decimal", "w(10)", &d("0")),
+        c("number", "w(2)", "I0"),
+        c("number", "w(10)", "I0"),
+        c("f64", "w(2)", &f(0.0)),
+        c("f64", "w(10)", &f(0.0)),
         c("decimal", "((2+", &d("0")),
         c("decimal", "1)", &d("0")),
         c("decimal", "(1+2)*3", &d("0")),
@@ -295,11 +303,16 @@ fn e_hist(cx: &RunCtx) {
                 st.executions += 1;
                 st.relations += 1;
                 if got != iso[*i] {
-                    // confirm in a fresh process
-                    let how = match fresh(seq) {
-                        Ok(v) if v.get(pos) == Some(&got) => "confirmed in a fresh process running exactly this history",
-                        Ok(_) => "only inside the long in-process history, not with this history alone",
-                        Err(_) => "fresh-process confirmation failed",
+                    // confirm in a fresh process (the first 64 mismatches only)
+                    static CONFIRMED: std::sync::atomic::AtomicUsize = std::sync::atomic::AtomicUsize::new(0);
+                    let how = if CONFIRMED.fetch_add(1, std::sync::atomic::Ordering::Relaxed) >= 64 {
+                        "in-process; not re-run in a fresh process"
+                    } else {
+                        match fresh(seq) {
+                            Ok(v) if v.get(pos) == Some(&got) => "confirmed in a fresh process running exactly this history",
+                            Ok(_) => "only inside the long in-process history, not with this history alone",
+                            Err(_) => "fresh-process confirmation failed",
+                        }
                     };
                     hist_violation(cx, a, seq, pos, &iso[*i], &got, how);
                 }
@@ -355,7 +368,25 @@ fn e_sweep_dom<D: Dom>(cx: &RunCtx, a: &[Call], iso: &[String]) {
         };
         format!("{} steps={}", out, r.steps)
     };
+    let confirmations = std::sync::atomic::AtomicUsize::new(0);
     let report = |calls: Vec<Call>, pos: usize, want: &str, got: &str, rec: &Recorder| {
+        // fresh-process confirmation of the first 64 mismatches only (two child processes each)
+        if confirmations.fetch_add(1, std::sync::atomic::Ordering::Relaxed) >= 64 {
+            rec.add(Violation {
+                kind: Kind::Relation,
+                ev: calls[pos].ev.to_string(),
+                input: calls.iter().map(show_call).collect::<Vec<_>>().join(" ; "),
+                at_enc: String::new(),
+                at_show: String::new(),
+                at_rust: String::new(),
+                expected: format!("call #{} returns {} — what it returns without the other call", pos + 1, want),
+                observed: format!("{} (in-process; not re-run in a fresh process)", got),
+                engine: "E-HIST sweep".into(),
+                family: None,
+                detail: json!({"history_calls": calls.iter().map(encode_call).collect::<Vec<_>>(), "position": pos}),
+            });
+            return;
+        }
         let how = match (fresh_calls(&calls), fresh_calls(&calls[pos..pos + 1])) {
             (Ok(h), Ok(i)) if h.get(pos) != i.first() => "confirmed: a fresh process running exactly this history differs from a fresh process running the call alone",
             (Ok(_), Ok(_)) => "only inside the long in-process history, not with this history alone",
